@@ -25,9 +25,9 @@ fn body(name: &str, line: usize, is_fixture: bool, params: &[&str], scope: Optio
         declared_params: params.iter().map(|s| s.to_string()).collect(), fixture_scope: scope }
 }
 macro_rules! cc_arm {
-    ($id:ident, $body:expr) => {
+    ($id:ident, $oracle:ident, $body:expr) => {
         #[cfg_attr(kani, kani::proof)]
-        #[cfg_attr(kani, kani::stub(rustpython_parser::parse, crate::oracle::oracle_parse))]
+        #[cfg_attr(kani, kani::stub(rustpython_parser::parse, crate::oracle::$oracle))]
         #[cfg_attr(kani, kani::stub(std::path::Path::canonicalize, crate::stubs::canonicalize_err))]
         #[cfg_attr(kani, kani::stub(std::hash::RandomState::new, crate::stubs::fixed_random_state))]
         #[cfg_attr(kani, kani::stub(std::arch::x86_64::__cpuid_count, crate::stubs::cpuid_none))]
@@ -40,10 +40,10 @@ macro_rules! cc_arm {
 }
 const MODULE: Option<FixtureScope> = Some(FixtureScope::Module);
 
-/// @harness id=c18_ctx_nowhere props=C18 unwind=40 mem=12 cap=1800 gates=oracle
+/// @harness id=c18_ctx_nowhere props=C18 unwind=40 mem=12 cap=1800 gates=oracle unwindset=find_inner:3;memchr_seq:400;rec~ParseErrorType:3;rec~LexicalErrorType:3;rec~FStringErrorType:3;rec~drop_glue::<std::io::Error:3
 /// D_COMPLETION: module level (import line), the @pytest.fixture decorator line, a non-test helper's signature
 /// and body: no completion context (symbolic selector over the four cursor lines).
-cc_arm!(c18_ctx_nowhere, {
+cc_arm!(c18_ctx_nowhere, oracle_only_d_completion, {
     stubs_mask();
     let k: u8 = any(); assume(k < 4);
     let r = match k { 0 => ctx_at(T_D_COMPLETION, 0, 3), 1 => ctx_at(T_D_COMPLETION, 2, 10), 2 => ctx_at(T_D_COMPLETION, 8, 11), _ => ctx_at(T_D_COMPLETION, 9, 6) };
@@ -51,10 +51,10 @@ cc_arm!(c18_ctx_nowhere, {
     reach!("c18.ctx_nowhere.end");
     std::mem::forget(r);
 });
-/// @harness id=c18_ctx_fixture props=C18 unwind=40 mem=12 cap=1800 gates=oracle
+/// @harness id=c18_ctx_fixture props=C18 unwind=40 mem=12 cap=1800 gates=oracle unwindset=find_inner:3;memchr_seq:400;rec~ParseErrorType:3;rec~LexicalErrorType:3;rec~FStringErrorType:3;rec~drop_glue::<std::io::Error:3
 /// D_COMPLETION: the module-scoped fixture `fx(a,\n b)`: both signature lines => signature (declared a, b; scope
 /// module), its two body lines => body.
-cc_arm!(c18_ctx_fixture, {
+cc_arm!(c18_ctx_fixture, oracle_only_d_completion, {
     stubs_mask();
     let k: u8 = any(); assume(k < 4);
     let (r, want) = match k {
@@ -67,10 +67,10 @@ cc_arm!(c18_ctx_fixture, {
     reach!("c18.ctx_fixture.end");
     std::mem::forget(r); std::mem::forget(want);
 });
-/// @harness id=c18_ctx_test props=C18 unwind=40 mem=12 cap=1800 gates=oracle
+/// @harness id=c18_ctx_test props=C18 unwind=40 mem=12 cap=1800 gates=oracle unwindset=find_inner:3;memchr_seq:400;rec~ParseErrorType:3;rec~LexicalErrorType:3;rec~FStringErrorType:3;rec~drop_glue::<std::io::Error:3
 /// D_COMPLETION: `@pytest.mark.usefixtures("fx")` => usefixtures context; `def test_x(fx):  # c` => signature;
 /// the body lines `y = 1`, `for i in fx:` (ends in a colon) and `pass` => body.
-cc_arm!(c18_ctx_test, {
+cc_arm!(c18_ctx_test, oracle_only_d_completion, {
     stubs_mask();
     let k: u8 = any(); assume(k < 5);
     let (r, want) = match k {
@@ -84,9 +84,9 @@ cc_arm!(c18_ctx_test, {
     reach!("c18.ctx_test.end");
     std::mem::forget(r); std::mem::forget(want);
 });
-/// @harness id=c18_ctx_method props=C18 unwind=40 mem=12 cap=1800 gates=oracle
+/// @harness id=c18_ctx_method props=C18 unwind=40 mem=12 cap=1800 gates=oracle unwindset=find_inner:3;memchr_seq:400;rec~ParseErrorType:3;rec~LexicalErrorType:3;rec~FStringErrorType:3;rec~drop_glue::<std::io::Error:3
 /// D_COMPLETION: class-nested test method: signature (declared self, fx) and body; the `class TestK:` line: nothing.
-cc_arm!(c18_ctx_method, {
+cc_arm!(c18_ctx_method, oracle_only_d_completion, {
     stubs_mask();
     let k: u8 = any(); assume(k < 3);
     let (r, want) = match k {
@@ -98,10 +98,10 @@ cc_arm!(c18_ctx_method, {
     reach!("c18.ctx_method.end");
     std::mem::forget(r); std::mem::forget(want);
 });
-/// @harness id=c18_ctx_typing props=C18,C11 unwind=40 mem=12 cap=1800 gates=oracle
+/// @harness id=c18_ctx_typing props=C18 unwind=40 mem=12 cap=1800 gates=oracle unwindset=find_inner:3;memchr_seq:400;rec~ParseErrorType:3;rec~LexicalErrorType:3;rec~FStringErrorType:3;rec~drop_glue::<std::io::Error:3
 /// incomplete documents (the parser fails, text fallback): `def test_x(` => signature of test_x; a fixture being
 /// typed `def fy(a,` => signature with declared a; `@pytest.mark.usefixtures(` => usefixtures; `def helper(` => nothing.
-cc_arm!(c18_ctx_typing, {
+cc_arm!(c18_ctx_typing, oracle_only_d_typing_open, {
     stubs_mask();
     let k: u8 = any(); assume(k < 4);
     let (r, want) = match k {
@@ -114,10 +114,10 @@ cc_arm!(c18_ctx_typing, {
     reach!("c18.ctx_typing.end");
     std::mem::forget(r); std::mem::forget(want);
 });
-/// @harness id=c18_ctx_comment_colon props=C18 unwind=40 mem=12 cap=1800 gates=oracle
+/// @harness id=c18_ctx_comment_colon props=C18 unwind=40 mem=12 cap=1800 gates=oracle unwindset=find_inner:3;memchr_seq:400;rec~ParseErrorType:3;rec~LexicalErrorType:3;rec~FStringErrorType:3;rec~drop_glue::<std::io::Error:3
 /// D_COMMENT_COLON: `def test_x(fx):  # c` followed directly by a body line that ends in a colon: that body line
 /// must be classified as body.
-cc_arm!(c18_ctx_comment_colon, {
+cc_arm!(c18_ctx_comment_colon, oracle_only_d_comment_colon, {
     stubs_mask();
     let r = ctx_at(T_D_COMMENT_COLON, 1, 8);
     let want = body("test_x", 1, false, &["fx"], None);
